@@ -259,8 +259,18 @@ def c03_tables(R):
     fn = util.resolve_locals(conc.handler("IntToStr").fn)
     ps = P(fn)
     ret = next(r.value for r in walk_no_nested(fn) if isinstance(r, ast.Return))
-    R.check(ast.unparse(ret) == f"StringV(str({ps[0]}.value))", m, fn, "IntToStr: decimal of the unsigned value",
-            f"concrete IntToStr returns `{norm(ret)}`")
+    # decimal text of the unsigned value: built with str() only (no hex / oct / bin / format specifications), from the
+    # operand's value, wrapped in StringV - whether in one piece or in chunks
+    txt = ast.unparse(fn)
+    ok = (
+        isinstance(ret, ast.Call)
+        and (dotted(ret.func) or "").split(".")[-1] == "StringV"
+        and util.depends_on(ret, {ps[0]}, fn)
+        and f"{ps[0]}.value" in txt
+        and "str(" in txt
+        and not any(bad in txt for bad in ("hex(", "oct(", "bin(", "format(", ":x", ":b", ":o", "%x", "%o", "signed"))
+    )
+    R.check(ok, m, fn, "IntToStr: decimal of the unsigned value", f"concrete IntToStr returns `{norm(ret)[:80]}`, not the decimal text of the operand's unsigned value")
     for op, meth in (("StrPrefixOf", "startswith"), ("StrSuffixOf", "endswith")):
         fn = util.resolve_locals(conc.handler(op).fn)
         ps = P(fn)
@@ -540,3 +550,38 @@ def c03_parse(R):
                     f"'-5', ' 5', '5_0' and non-ASCII digits are accepted where SMT-LIB str.to_int gives -1",
                 )
     R.need(n >= 1, "no int() of a caller string found (anchor vanished)")
+    # Python refuses to convert more than sys.get_int_max_str_digits() digits at once (4300 by default): a number of
+    # caller-chosen length is converted in pieces - int() of a bounded slice, str() of a remainder
+    for q in ("StrToInt", "IntToStr"):
+        fn = m.functions.get(q)
+        if fn is None:
+            continue
+        params, tainted = _taints(fn)
+        for c in (x for x in walk_no_nested(fn) if isinstance(x, ast.Call)):
+            if dotted(c.func) == "int" and c.args and _is_tainted(c.args[0], params, tainted):
+                a = c.args[0]
+                srcs = [a]
+                if isinstance(a, ast.Name):
+                    srcs = [st.value for st in walk_no_nested(fn) if isinstance(st, ast.Assign) and any(isinstance(t, ast.Name) and t.id == a.id for t in st.targets)]
+                bounded = bool(srcs) and all(isinstance(v, ast.Subscript) and isinstance(v.slice, ast.Slice) and v.slice.upper is not None for v in srcs)
+                R.check(
+                    bounded,
+                    m,
+                    c,
+                    f"{q}: int() of a bounded slice",
+                    f"{q} converts `{ast.unparse(a)}`, a string of caller-chosen length, with one int(): beyond 4300 digits Python raises "
+                    f"ValueError, out of the AST constructor, where the solver evaluates the expression",
+                    construct=f"{q}: int() of a string of unbounded length",
+                )
+            if dotted(c.func) == "str" and c.args and q == "IntToStr":
+                a = c.args[0]
+                whole = ast.unparse(a).endswith(".value")
+                R.check(
+                    not whole,
+                    m,
+                    c,
+                    "IntToStr: str() of a bounded piece",
+                    "IntToStr converts the whole value with one str(): beyond 4300 digits Python raises ValueError where the solver "
+                    "evaluates the expression",
+                    construct="IntToStr: str() of a number of unbounded length",
+                )
